@@ -30,7 +30,7 @@ var (
 )
 
 type Case struct {
-	Kind  string // abort-close abort-reset iofault hello-mutation hello-truncation h2-mutation plain-http stall slow-reader h2-flood
+	Kind  string // abort-close abort-reset iofault hello-mutation hello-truncation h2-mutation plain-http stall slow-reader slow-backend h2-flood
 	Proto string // h1 h2
 	K     int    // byte offset / op index / mutation index
 	Err   string // for iofault
@@ -245,6 +245,43 @@ func Run(t *testing.T, cs Case, opts bubble.StackOpts, hello []byte, oracle func
 				synctest.Wait()
 				cl.Close()
 			}
+		case "slow-backend":
+			// the backend takes K seconds to answer - past the proxy's write / read / idle timeouts when K is large enough.
+			// Val 0: GET; 1: POST with a complete body; 2: POST whose body the client never finishes
+			release := make(chan struct{})
+			st.Backend.Hold = func(r *bubble.RecReq) {
+				if r.Path == "/slow" {
+					<-release
+				}
+			}
+			cl = st.Connect("victim", nil, helloFor(cs.Proto))
+			synctest.Wait()
+			method, body := "GET", []byte(nil)
+			if cs.Val > 0 {
+				method, body = "POST", []byte("0123456789")
+			}
+			if cs.Proto == "h1" {
+				if cs.Val == 2 {
+					cl.Write([]byte("POST /slow HTTP/1.1\r\nHost: localhost\r\nContent-Length: 100\r\n\r\n0123456789"))
+				} else {
+					cl.SendH1(bubble.Req{Method: method, Path: "/slow", Host: "localhost", Body: body})
+				}
+			} else {
+				cl.StartH2()
+				if cs.Val == 2 {
+					blk := cl.Enc.Block(h2wire.HF{":method", "POST"}, h2wire.HF{":scheme", "https"}, h2wire.HF{":authority", "localhost"}, h2wire.HF{":path", "/slow"})
+					cl.Write(h2wire.Headers(1, blk, false, true, nil, -1))
+					cl.Write(h2wire.Data(1, body, false, -1))
+				} else {
+					cl.SendH2(1, bubble.Req{Method: method, Path: "/slow", Host: "localhost", Body: body})
+				}
+			}
+			synctest.Wait()
+			time.Sleep(time.Duration(cs.K) * time.Second)
+			synctest.Wait()
+			close(release)
+			synctest.Wait()
+			cl.Close()
 		case "h2-flood":
 			// a legal but abusive volume of one frame kind on one connection (K: 0 PRIORITY on new ids, 1 PRIORITY on one id,
 			// 2 PING, 3 SETTINGS, 4 WINDOW_UPDATE(0,1), 5 HEADERS+RST_STREAM pairs), then a PING
